@@ -185,7 +185,7 @@ def getProbabilities (r : QReg R) : List R :=
   let inv : R := 1 / r.getAbsolute
   (List.range (2 ^ r.qNum)).map (fun i => (r.psi.getD i 0).normSq * inv)
 
-variable [LE R] [DecidableLE R] [HasSqrt R] [RegConsts R]
+variable [LE R] [DecidableLE R] [LT R] [DecidableLT R] [HasSqrt R] [RegConsts R]
 
 /-- `QReg::normalize` -/
 def normalize (r : QReg R) : QReg R :=
@@ -196,12 +196,20 @@ def normalize (r : QReg R) : QReg R :=
     let inv : R := 1 / norm
     { r with psi := r.psi.map (fun v => v.scale inv) }
 
+/-- `QReg::rescale`: divide by the norm; a zero vector (or a NaN norm) is left alone -/
+def rescale (r : QReg R) : QReg R :=
+  let norm := HasSqrt.sqrt r.getAbsolute
+  if (0 : R) < norm then
+    let inv : R := 1 / norm
+    { r with psi := r.psi.map (fun v => v.scale inv) }
+  else r
+
 /-- `QReg::measure_mask` (after the D2 repair); `randIdx` is the basis index drawn by
 `WeightedIndex` (an input of the model). Returns the new register and the classical one. -/
 def measureMask (r : QReg R) (mask randIdx : Nat) : QReg R × CReg :=
   let mask := mask &&& r.qMask
   if mask = 0 then (r, CReg.new r.qNum)
-  else ((r.collapseMask randIdx mask).normalize, CReg.withState r.qNum (randIdx &&& mask))
+  else ((r.collapseMask randIdx mask).rescale, CReg.withState r.qNum (randIdx &&& mask))
 
 /-- `QReg::reset_by_mask` (after the D12 repair): measure the named qubits (`randIdx` is the
 drawn basis index) and flip those found in `|1>`; naming every qubit resets the register. -/
